@@ -437,7 +437,7 @@ pub fn case_program(bytes: &[u8], ctx: &mut Ctx) -> CaseResult {
     let mut s = Src::new(bytes);
     let fl = proglevel::flag_set(s.below(proglevel::NUM_FLAG_SETS));
     let use_frontier = s.bool();
-    let (coin_spends, inputs, desc): (Vec<chia_protocol::CoinSpend>, Vec<([u8; 32], [u8; 32], u64)>, String) = if use_frontier {
+    let (mut coin_spends, mut inputs, desc): (Vec<chia_protocol::CoinSpend>, Vec<([u8; 32], [u8; 32], u64)>, String) = if use_frontier {
         let f = gen_frontier(&mut s);
         // keep program-level cases moderate
         let take = f.spends.len().min(400);
@@ -457,8 +457,30 @@ pub fn case_program(bytes: &[u8], ctx: &mut Ctx) -> CaseResult {
         let inp = b.spends.iter().map(|sp| (sp.parent, sp.puzzle_hash, sp.amount)).collect();
         (proglevel::coin_spends(&b), inp, format!("bundle tree={}", b.tree.render(b.root)))
     };
+    // one case in ten: the reveal of one spend is replaced by a DIFFERENT puzzle
+    // while its coin keeps claiming the old puzzle hash — preferably a spend whose
+    // predecessor claims (truthfully) the very same hash. The mempool entry points
+    // have to refuse it; the block paths derive the hash from the reveal. `inputs`
+    // holds the tree hash of what is actually revealed.
+    let mut swapped: Option<usize> = None;
+    if !coin_spends.is_empty() && coin_spends.len() <= 60 && s.chance(26) {
+        let n = coin_spends.len();
+        let twins: Vec<usize> = (1..n).filter(|i| coin_spends[*i].coin.puzzle_hash == coin_spends[*i - 1].coin.puzzle_hash).collect();
+        let i = if !twins.is_empty() && s.chance(200) { twins[s.below(twins.len())] } else { s.below(n) };
+        let claimed: [u8; 32] = coin_spends[i].coin.puzzle_hash.as_slice().try_into().unwrap();
+        let phs = condgen::tag_puzzle_hashes();
+        let start = s.below(condgen::NUM_TAGS);
+        if let Some(tg) = (0..condgen::NUM_TAGS).map(|k| (start + k) % condgen::NUM_TAGS).find(|k| phs[*k] != claimed) {
+            let mut t = Tree::new();
+            let pz = condgen::tagged_identity(&mut t, tg as u8 + 1);
+            coin_spends[i].puzzle_reveal = chia_protocol::Program::from(t.serialize(pz));
+            inputs[i].1 = phs[tg];
+            swapped = Some(i);
+            ctx.label(if twins.contains(&i) { "reveal-swapped:predecessor-claims-the-same-hash" } else { "reveal-swapped" });
+        }
+    }
     ctx.ran_dry(s.ran_dry());
-    ctx.render(|| format!("flags={fl:?} {desc}"));
+    ctx.render(|| format!("flags={fl:?} reveal swapped at {swapped:?} {desc}"));
     let nosig = fl | ConsensusFlags::DONT_VALIDATE_SIGNATURE;
     let max_cost = u64::MAX / 4;
     let sig = Signature::default();
@@ -567,7 +589,7 @@ pub fn property() -> Property {
                 run: case_program,
                 inflight: false,
                 min_nontrivial: 30_000,
-                required_labels: &["rbg2:accepted", "rbg:accepted", "run_spendbundle:accepted", "validate:accepted"],
+                required_labels: &["rbg2:accepted", "rbg:accepted", "run_spendbundle:accepted", "validate:accepted", "reveal-swapped", "reveal-swapped:predecessor-claims-the-same-hash"],
             },
         ],
         death_is_violation: false,
